@@ -91,7 +91,8 @@ def run(ctx):
             j = canon(a['j']) if a['j'] is not None else ''
             k_ok = k.startswith('Option::Some{0:idx(range(0,') 
             if r.name in ('L', 'R'):
-                j_ok = j.startswith('Option::Some{0:lv')
+                # the round counter: a variable carried around the round loop, or the index of a `for round in 0..rounds` loop
+                j_ok = j.startswith('Option::Some{0:lv') or j.startswith('Option::Some{0:idx(range(0,')
             else:
                 j_ok = j == 'Option::None{}'
             seed_ok = any(x.tag == 'field' and x[1] == 'seed_nonce' for x in walk(a['seed']))
@@ -136,7 +137,31 @@ def run(ctx):
             draws = [getattr(r, 'bb', None) for r in roles if r.name in ('L', 'R')]
         rep.check(ok, 'R-C13-1', 'R-C13-1/round-counter', 'L and R use one round counter: %s' % det, 'round counter of L / R: %s' % (det or 'several definitions'), ctx.where(p))
     else:
-        rep.violation('R-C13-1', 'R-C13-1/round-counter', 'L and R nonce derivations do not share a single round counter (%d loop variables)' % len(lvs), ctx.where(p))
+        # .. or the counter is the index of the round loop itself (`for round in 0..rounds`): both roles must use that one index, and the
+        # loop must be the one both draws sit in
+        idxs = set()
+        for r in roles:
+            if r.name in ('L', 'R'):
+                for a in r.alts:
+                    if a['kind'] == 'nonce' and a['j'] is not None:
+                        idxs |= {x for x in walk(a['j']) if x.tag == 'index'}
+        if not lvs and len(idxs) == 1:
+            ix_ = next(iter(idxs))
+            rng = ix_[1]
+            while rng.tag == 'mut':
+                rng = rng[1]
+            from0 = rng.tag == 'range' and rng[1].tag == 'const' and rng[1][1] == 0
+            def top(t):
+                while t.tag == 'mut':
+                    t = t[1]
+                return t
+            lps = [lp for lp in ctx.loops(p).values() if lp.iter_term is not None and (top(lp.iter_term) is rng or top(lp.iter_term) is top(ix_[1]))]
+            draws = [getattr(r, 'bb', None) for r in roles if r.name in ('L', 'R')]
+            inside = bool(lps) and all(d is not None and d in lps[0].blocks for d in draws)
+            rep.check(from0 and len(lps) == 1 and inside, 'R-C13-1', 'R-C13-1/round-counter', 'L and R use the index of the round loop, which starts at 0: %s' % canon(ix_),
+                      'round index of L / R: %s (from 0: %s, one loop containing both draws: %s)' % (canon(ix_), from0, len(lps) == 1 and inside), ctx.where(p))
+        else:
+            rep.violation('R-C13-1', 'R-C13-1/round-counter', 'L and R nonce derivations do not share a single round counter (%d loop variables)' % len(lvs), ctx.where(p))
 
     # ---- R-C13-2 final masks
     cfg = ctx.cfgof(p)
